@@ -62,7 +62,7 @@ OPTION_KINDS = (
 
 def option_cases(tier):
     """Structs with signal blocks on every subset of field names (incl. names nested deeper)."""
-    base = [U(8), I(16), enum_with_max(5), St(("f0", 0, U(8)), ("q", 1, I(8))), Arr(U(8), 2)]
+    base = [U(8), I(16), enum_with_max(5), St(("f0", 0, U(8)), ("q", 1, I(8))), Arr(U(8), 2), Arr(Arr(U(4), 2), 2)]
     out = []
     for c in itertools.product(base, repeat=2):
         st = ("st", tuple(("f%d" % i, i, c[i]) for i in range(2)))
